@@ -56,6 +56,7 @@ func main() {
 	dir := flag.String("dir", "", "repository copy to instrument in place")
 	rep := flag.String("report", "", "json report path")
 	yieldPkgs := flag.String("yield", ".,quadtree,planar", "packages (relative) to get statement yields; \".\" is the root package orb")
+	analyzeOnly := flag.Bool("analyze", false, "only write verifrt/zz_fields.go (fields that are never read by library code), rewrite nothing")
 	mapPkgs := flag.String("maps", "encoding/mvt,geojson,maptile,maptile/tilecover,quadtree,planar", "packages (relative) to get the map seam")
 	flag.Parse()
 	if *dir == "" {
@@ -90,6 +91,10 @@ func main() {
 	if err != nil {
 		fmt.Fprintln(os.Stderr, "instr: load:", err)
 		os.Exit(2)
+	}
+	writeCounterFields(*dir, pkgs, yp)
+	if *analyzeOnly {
+		return
 	}
 	site := 0
 	mapID := 0
@@ -585,4 +590,148 @@ func walkExprs(init ast.Stmt, cond ast.Expr, walk func(ast.Node)) {
 			return true
 		})
 	}
+}
+
+// writeCounterFields finds integer struct fields of the yield packages that
+// library code only ever increments (x.f++, x.f += c, atomic.AddXxx(&x.f, c))
+// or hands out through a getter whose body is a single return statement. Such
+// a field cannot influence any answer: nobody reads it. The tree-image oracle
+// leaves exactly these fields out (usage counters); every other field,
+// including one that is loaded anywhere else, stays part of the image.
+func writeCounterFields(dir string, pkgs []*packages.Package, yp map[string]bool) {
+	bad := map[*types.Var]bool{}
+	used := map[*types.Var]bool{}
+	owner := map[*types.Var]string{}
+	for _, pkg := range pkgs {
+		if !yp[pkg.PkgPath] || len(pkg.Errors) > 0 {
+			continue
+		}
+		scope := pkg.Types.Scope()
+		for _, name := range scope.Names() {
+			tn, ok := scope.Lookup(name).(*types.TypeName)
+			if !ok {
+				continue
+			}
+			st, ok := tn.Type().Underlying().(*types.Struct)
+			if !ok {
+				continue
+			}
+			for i := 0; i < st.NumFields(); i++ {
+				f := st.Field(i)
+				if b, ok := f.Type().Underlying().(*types.Basic); ok && b.Info()&types.IsInteger != 0 {
+					owner[f] = pkg.PkgPath + "." + tn.Name() + "." + f.Name()
+				}
+			}
+		}
+		for i, file := range pkg.Syntax {
+			if strings.HasSuffix(pkg.CompiledGoFiles[i], "_test.go") {
+				continue
+			}
+			var stack []ast.Node
+			ast.Inspect(file, func(n ast.Node) bool {
+				if n == nil {
+					stack = stack[:len(stack)-1]
+					return true
+				}
+				stack = append(stack, n)
+				sel, ok := n.(*ast.SelectorExpr)
+				if !ok {
+					return true
+				}
+				v, ok := pkg.TypesInfo.Uses[sel.Sel].(*types.Var)
+				if !ok || owner[v] == "" {
+					return true
+				}
+				used[v] = true
+				if !counterUse(pkg.TypesInfo, stack) {
+					bad[v] = true
+				}
+				return true
+			})
+		}
+	}
+	var keys []string
+	for v, k := range owner {
+		if used[v] && !bad[v] {
+			keys = append(keys, k)
+		}
+	}
+	sort.Strings(keys)
+	var sb strings.Builder
+	sb.WriteString("// Code generated by /verif/instr. DO NOT EDIT.\n\npackage verifrt\n\nfunc init() {\n\tCounterOnlyFields = map[string]bool{\n")
+	for _, k := range keys {
+		fmt.Fprintf(&sb, "\t\t%q: true,\n", k)
+	}
+	sb.WriteString("\t}\n}\n")
+	os.WriteFile(filepath.Join(dir, "verifrt", "zz_fields.go"), []byte(sb.String()), 0o644)
+	if len(keys) > 0 {
+		fmt.Printf("instr: counter-only fields (left out of the tree image): %v\n", keys)
+	}
+}
+
+// counterUse reports whether the selector on top of the stack is used as a pure counter.
+func counterUse(info *types.Info, stack []ast.Node) bool {
+	n := len(stack)
+	sel := stack[n-1]
+	parent := func(i int) ast.Node {
+		if n-1-i >= 0 {
+			return stack[n-1-i]
+		}
+		return nil
+	}
+	isAtomic := func(call *ast.CallExpr, prefix string) bool {
+		fn, ok := call.Fun.(*ast.SelectorExpr)
+		if !ok || !strings.HasPrefix(fn.Sel.Name, prefix) {
+			return false
+		}
+		id, ok := fn.X.(*ast.Ident)
+		if !ok {
+			return false
+		}
+		pn, ok := info.Uses[id].(*types.PkgName)
+		return ok && pn.Imported().Path() == "sync/atomic"
+	}
+	soleReturn := func(ret ast.Node, i int) bool {
+		// ret is stack[n-1-i]; it must be the only statement of a function body
+		if _, ok := ret.(*ast.ReturnStmt); !ok {
+			return false
+		}
+		blk, ok := parent(i + 1).(*ast.BlockStmt)
+		if !ok || len(blk.List) != 1 {
+			return false
+		}
+		_, isFunc := parent(i + 2).(*ast.FuncDecl)
+		return isFunc
+	}
+	switch p := parent(1).(type) {
+	case *ast.IncDecStmt:
+		return p.X == sel
+	case *ast.AssignStmt:
+		if p.Tok == token.ADD_ASSIGN || p.Tok == token.SUB_ASSIGN {
+			for _, l := range p.Lhs {
+				if l == sel {
+					return true
+				}
+			}
+		}
+		return false
+	case *ast.UnaryExpr:
+		if p.Op != token.AND {
+			return false
+		}
+		call, ok := parent(2).(*ast.CallExpr)
+		if !ok || len(call.Args) == 0 || call.Args[0] != ast.Expr(p) {
+			return false
+		}
+		if isAtomic(call, "Add") {
+			return true
+		}
+		if isAtomic(call, "Load") {
+			return soleReturn(parent(3), 3) // a getter: `return atomic.LoadInt64(&x.f)`
+		}
+		return false
+	case *ast.ReturnStmt:
+		return soleReturn(p, 1) // a getter: `return x.f`
+	}
+	return false
 }
